@@ -319,8 +319,8 @@ fn lossfree_strategy(tier: Tier) -> BoxedStrategy<Case> {
         .prop_flat_map(move |v6| {
             let parts = || prop::collection::vec((1u32..1000, chunks(), prop::option::weighted(0.4, prop_oneof![3 => 0u32..100, 1 => 100u32..3000, 1 => 6000u32..9000]), prop::bool::weighted(0.2)), 1..5);
             let total = move || prop_oneof![1 => Just(0u32), 2 => 1u32..3000, 4 => 3000u32..30_000, 1 => 30_000u32..max_total];
-            (sock_pair(v6, 8), (total(), parts()), (total(), parts()), prop_oneof![3 => 1u16..60, 2 => 60u16..200], any::<u64>(), prop::bool::weighted(0.7))
-                .prop_map(move |((mut s0, mut s1), (ta, pa), (tb, pb), lat, key, shutdown)| {
+            (sock_pair(v6, 8), (total(), parts()), (total(), parts()), prop_oneof![3 => 1u16..60, 2 => 60u16..200], any::<u64>(), prop::bool::weighted(0.7), prop::bool::weighted(0.3))
+                .prop_map(move |((mut s0, mut s1), (ta, pa), (tb, pb), lat, key, shutdown, unequal_links)| {
                     let ta = ta.max(1).min(600 * s0.min_payload() as u32);
                     let tb = tb.min(600 * s0.min_payload() as u32);
                     for s in [&mut s0, &mut s1] {
@@ -328,9 +328,23 @@ fn lossfree_strategy(tier: Tier) -> BoxedStrategy<Case> {
                         // config-level guard for the pre-cut-segment stall (F11): roomy receive buffers
                         s.rx_buf = s.rx_buf.max(8 * s.max_payload() as u32);
                     }
-                    // both sides on the same kind of link: the path MTU equals the link MTU (probing succeeds)
-                    s1.link_mtu = s0.link_mtu;
+                    // both sides on the same kind of link: the path MTU equals the link MTU (probing succeeds) …
+                    let mut path_mtu = (None, None);
+                    let mut tb = tb;
+                    if !unequal_links {
+                        s1.link_mtu = s0.link_mtu;
+                    } else {
+                        // … or, in three cases out of ten, the writer sits behind the smaller link and the path carries
+                        // what that link carries: its segments are much smaller than the receiver's segment size, so many
+                        // more of them fit the advertised window than the receiver has reassembly slots. The side on the
+                        // larger link only acknowledges (its own size probes would be discarded by the path, and waiting
+                        // for a probe's timer is not what the promptness clause is about).
+                        if s0.link_mtu > s1.link_mtu { std::mem::swap(&mut s0.link_mtu, &mut s1.link_mtu); }
+                        path_mtu = (Some(s0.link_mtu), Some(s0.link_mtu));
+                        tb = 0;
+                    }
                     s1.rx_buf = s1.rx_buf.max(8 * s1.max_payload() as u32);
+                    let ta = ta.min(600 * s0.min_payload() as u32).max(1);
                     let mut a_w = vec![WOp::Write { n: 1, chunk: 1 }];
                     a_w.extend(writer(ta - 1, pa));
                     if shutdown { a_w.push(WOp::WaitOwnReader); a_w.push(WOp::Sleep(300)); a_w.push(WOp::Shutdown); }
@@ -338,7 +352,7 @@ fn lossfree_strategy(tier: Tier) -> BoxedStrategy<Case> {
                     let sc = Scenario {
                         socks: vec![s0, s1],
                         conns: vec![ConnPlan { from: 0, to: 1, start_ms: 0, key, a_w, a_r: vec![ROp::Read { n: tb, buf: 65536 }], b_w, b_r: if shutdown { vec![ROp::ReadToEnd { buf: 65536 }] } else { vec![ROp::Read { n: ta, buf: 65536 }] } }],
-                        net: NetPlan { family: Family::LossFree, lat_ms: (lat, lat), path_mtu: (None, None), fates: vec![], cut_at: None },
+                        net: NetPlan { family: Family::LossFree, lat_ms: (lat, lat), path_mtu, fates: vec![], cut_at: None },
                         events: vec![],
                         deadline_ms: 600_000,
                         linger_ms: 0,
